@@ -21,6 +21,7 @@ import (
 	"sort"
 	"strings"
 	"sync"
+	"sync/atomic"
 
 	"verif/engines/vsim"
 	"verif/engines/xs"
@@ -56,6 +57,8 @@ type model struct {
 	spSig, memSig, rsp, wsp vsim.SigID
 
 	labels sync.Map // interned labels
+	wbBad  int64    // states whose internal registers disagree with the abstract sequence (evidence only)
+	wbOK   int64
 	dirtied int     // registers / memory words filled with ones before the reset check
 
 	mu    sync.Mutex
@@ -175,6 +178,9 @@ func newModel(sp spec) (*model, error) {
 		m.rsp, a = sim.Lookup("readsp")
 		m.wsp, b = sim.Lookup("writesp")
 		m.hasPtr = a && b
+	}
+	if sp.FreeData && len(m.domain) > 4 {
+		return nil, fmt.Errorf("free-data mode supports at most 4 values")
 	}
 	m.pool.New = func() any { return &worker{sim: m.proto.Clone()} }
 	return m, nil
@@ -334,9 +340,17 @@ func (m *model) invariant(sim *vsim.Sim, g *ghost) (class, what string) {
 			}
 		}
 	}
+	return "", ""
+}
+
+// whitebox compares the internal registers the template is known to use (sp, readsp, writesp, memory) with the abstract
+// sequence. A disagreement is NOT a violation of the property by itself (the property speaks about the handshake ports and
+// the flags; an observable consequence is found by the exhaustive exploration anyway): it is counted in the evidence only.
+func (m *model) whitebox(sim *vsim.Sim, g *ghost) string {
+	n := len(g.seq)
 	if m.hasSp {
 		if sp := sim.Get(m.spSig); int(sp) != n {
-			return "occupancy-register-wrong", fmt.Sprintf("sp=%d with %d stored elements", sp, n)
+			return fmt.Sprintf("sp=%d with %d stored elements", sp, n)
 		}
 	}
 	if m.hasMem && (!m.fifo || m.hasPtr) {
@@ -345,24 +359,24 @@ func (m *model) invariant(sim *vsim.Sim, g *ghost) (class, what string) {
 			base = int(sim.Get(m.rsp))
 			w := int(sim.Get(m.wsp))
 			if base >= m.depth || w >= m.depth || (base+n)%m.depth != w {
-				return "pointer-mismatch", fmt.Sprintf("readsp=%d writesp=%d with %d stored elements (depth %d)", base, w, n, m.depth)
+				return fmt.Sprintf("readsp=%d writesp=%d with %d stored elements (depth %d)", base, w, n, m.depth)
 			}
 		}
 		for i := 0; i < n; i++ {
 			if got := m.valIdx(sim.GetMem(m.memSig, (base+i)%m.depth)); got != g.seq[i] {
-				return "memory-differs-from-sequence", fmt.Sprintf("memory[%d]=%d, abstract element %d is %d",
+				return fmt.Sprintf("memory[%d]=%d, abstract element %d is %d",
 					(base+i)%m.depth, sim.GetMem(m.memSig, (base+i)%m.depth), i, m.domain[g.seq[i]])
 			}
 		}
 	}
-	return "", ""
+	return ""
 }
 
 // ---- one clock of the closed system --------------------------------------------------------------------------------
 
 // choice letters: '-' stay idle, 'h' hold, 'd' drop, 'r' raise (receiver), '0'+i raise with domain value i (sender).
 // Free-data mode (spec.FreeData) lets a sender put any value on its Data input whenever the value is not being sampled
-// (idle, or request still raised after the Ack): 'a'+i = request low with data i, 'A'+i = keep request raised with data i.
+// (idle, or request still raised after the Ack): 'w'+i = request low with data i, 'A'+i = keep request raised with data i.
 func (m *model) choices(g *ghost, a int) []byte {
 	switch g.ph[a] {
 	case phReq:
@@ -371,7 +385,7 @@ func (m *model) choices(g *ghost, a int) []byte {
 		if m.sp.FreeData && a < len(m.senders) {
 			var o []byte
 			for i := range m.domain {
-				o = append(o, byte('A'+i), byte('a'+i))
+				o = append(o, byte('A'+i), byte('w'+i))
 			}
 			return o
 		}
@@ -402,9 +416,9 @@ func (m *model) step(sim *vsim.Sim, g *ghost, letters string) (ng *ghost, class,
 		case c == '-' || c == 'd':
 			sim.Set(m.sWrite[k], 0)
 			sim.Set(m.sData[k], 0)
-		case c >= 'a' && c <= 'p' && c != 'd' && c != 'h':
+		case c >= 'w' && c <= 'z':
 			sim.Set(m.sWrite[k], 0)
-			sim.Set(m.sData[k], m.domain[c-'a'])
+			sim.Set(m.sData[k], m.domain[c-'w'])
 		case c >= 'A' && c <= 'P':
 			req[k] = true
 			sim.Set(m.sData[k], m.domain[c-'A'])
@@ -606,7 +620,7 @@ func (m *model) succ(ex *xs.Explorer[string], id int, s string) []xs.Edge[string
 		if m.sp.FreeData && a < ns {
 			o = o[:0]
 			for i := range m.domain {
-				o = append(o, byte('a'+i))
+				o = append(o, byte('w'+i))
 			}
 		}
 		if ack == 0 {
@@ -634,6 +648,11 @@ func (m *model) succ(ex *xs.Explorer[string], id int, s string) []xs.Edge[string
 			p := append(ex.Path(id), lab)
 			m.record(&viol{Sig: m.sig(class), What: what, Labels: p})
 		} else {
+			if wb := m.whitebox(sim, ng); wb != "" {
+				atomic.AddInt64(&m.wbBad, 1)
+			} else {
+				atomic.AddInt64(&m.wbOK, 1)
+			}
 			w.key = sim.StateKey(w.key)
 			out = append(out, xs.Edge[string]{Label: lab, Next: m.encode(ng, w.key)})
 		}
@@ -669,7 +688,7 @@ func (m *model) describe(labels, cycle []string) ([]string, error) {
 	}
 	var lines []string
 	lines = append(lines, "agents: "+strings.Join(append(append([]string{}, m.senders...), m.recvs...), " ")+
-		"   letters: - idle, <i> raise write of domain value i, r raise read, h hold, d drop; domain="+fmt.Sprint(m.domain))
+		"   letters: - idle, <i> raise write of domain value i, r raise read, h hold, d drop, w+i request low with data i, A+i hold with data i; domain="+fmt.Sprint(m.domain))
 	lines = append(lines, "after reset: "+m.observe(sim, g))
 	all := append(append([]string{}, labels...), cycle...)
 	for i, l := range all {
